@@ -12,7 +12,7 @@ TOL = 1e-6 * S + 1e-300 (4x that bound; tighter than the design's 1e-5 relative)
 import math
 from fractions import Fraction
 
-from .. import core
+from .. import core, history
 
 PID = "C15"
 THEOREMS = [
@@ -20,13 +20,24 @@ THEOREMS = [
     "sw_translate_invariant", "sw_legacy_refuted", "sw_legacy_agrees_on_nonnegative",
     "sorted_matching_optimal", "sw_slice_is_1d_transport_cost", "sw_diag_neutral", "sw_triangle",
     "sw_le_twice_dominating_cost", "sw_le_2W1_partial", "sw_le_twice_W1_l1",
+    "sw_le_twice_wasserstein", "sw_le_twice_any_matching_cost",
 ]
 RULE = ("seeded generator over classes {generic, neg (negative coordinates), mixed (b+d of both signs), reorder, near, "
         "diag (diagonal points mixed in), scale (x 2^-10..2^20), empty, one_empty, single, dyadic (small dyadic grid), repaired, "
-        "multi (bit-identical shared points with different multiplicities), intdtype (int32/int64 arrays, compared with float64)} x "
+        "multi (bit-identical shared points with different multiplicities), intdtype (int32/int64 arrays, compared with float64), "
+        "tiny (whole diagrams x 1e-8..1e-30: every persistence below any absolute threshold), farshort (|coordinates| T = 1e3..1e6 of "
+        "either sign, persistence 7e-6..1e-2 of T, mostly 1-3 points against 0-2; either living at T and shifted back to the origin or "
+        "living at the origin and shifted to T), layout (Fortran-ordered arrays, strided views into a larger array, read-only arrays), "
+        "big (17..65 against 9..50 points, M <= 10; 2 cases in quick)} x "
         "M in {1,2,5,50,49,98,103,107} + 4 values drawn from 1..130 per run; 0-5 points per diagram; repaired = same births, same deaths, different pairing; every case also carries a third diagram, a shift (often into "
-        "negative coordinates), a scale factor, a permutation and diagonal points for the metamorphic relations. "
-        "Non-trivial: both diagrams non-empty, not reorderings of each other, and the value is > 0; distinct = distinct JSON input")
+        "negative coordinates), a scale factor (2, 0.5, 3, random, 1024, 1e-9, 1e-12, 1e6), a permutation and diagonal points for the metamorphic relations; "
+        "besides sw(F,G), the values sw(F,H), sw(H,G) and sw(F,G) asked once more after all other calls are compared with the averaged 1-D "
+        "transport cost. Call histories (harness/history.py; 14 in quick, 200 in thorough): all steps in one process on shared "
+        "ndarray objects (equal-valued diagrams are the same object, within a step and across steps), every step judged by the same spec "
+        "predicate: pairwise (d(A,B), d(B,C), d(A,C), d(C,empty), d(C,B) for diagrams at different places along the diagonal), msweep (one pair "
+        "under several M and back), fault (a 3-column second argument, which raises after the first has been projected, and M = 0, between clean calls), "
+        "layout (pairwise on strided views / Fortran order). Plain cases build fresh arrays for every call. "
+        "Non-trivial: both diagrams non-empty, not reorderings of each other, and the value is > 0 (a history: at least two such steps); distinct = distinct JSON input")
 TRUSTED_BASE = [
     "Coq 8.16.1 kernel, vm_compute (model execution) ; no native_compute",
     "Q/Z/list development: theorems closed under the global context",
@@ -34,15 +45,19 @@ TRUSTED_BASE = [
     "primitive-float/int63 specification axioms",
     "hand-written model Model/SlicedM.v of sliced_wasserstein.py lines 27-56",
     "harness: generator, float->exact-rational printer, direction printer (same text in lemma and case files), "
-    "tolerance rule TOL (module docstring), verdict parser",
+    "tolerance rule TOL (module docstring), verdict parser; call histories (harness/history.py): the steps of a history are "
+    "judged by the Python spec predicate only, not by the Coq model",
 ]
 ASSUMPTIONS = [
     "numpy semantics of np.dot on a float32 direction and a float64 point (float64 result), sorted(), "
     "scipy cityblock are as modelled",
     "binary32/64 rounding of the implementation is bounded by TOL = 1e-6 * sum(|b|+|d|), argued in the docstring, not proved",
-    "the bound sliced <= 2 * W1 is proved for every partial matching and every rational upper bound of the "
-    "Euclidean distances (sw_le_2W1_partial: directions in the closed unit disc); against the irrational "
-    "Euclidean W1 itself it is monitored on every generated case (own W1 and persim.wasserstein)",
+    "any (n,2) ndarray of finite numbers is a legitimate diagram argument whatever its memory layout or flags (Fortran order, "
+    "strided view, read-only; the pinned code accepts them all), and a call must leave its arguments usable for later calls",
+    "the bound sliced <= 2 * W1 is proved for the rational model against the real-valued Euclidean W1 of "
+    "Spec/WassersteinS.v (sw_le_twice_wasserstein: directions in the closed unit disc, points on or above the "
+    "diagonal; uses the stdlib classical-reals axioms); for the floating-point implementation it is monitored on "
+    "every generated case (own W1 and persim.wasserstein)",
 ]
 COQ_DEPS = ["Corr/SlicedCorr.vo"]
 MS_FIXED = [1, 2, 5, 50, 49, 98, 103, 107]     # 49, 98, 103, 107: (1.5 - 0.5) / (1/M) rounds up in binary64
@@ -78,10 +93,36 @@ def _dgm(rng, n, kind, sc=1.0):
     return [[x * sc for x in _pt(rng, kind)] for _ in range(n)]
 
 
+def _farshort(rng):
+    """Short-lived features of a filtration whose values sit far from zero: |coordinates| ~ T in 1e3..1e6 (either
+    sign), persistence rel * T with rel from 7e-6 (0.45 * persistence, the value of one point against the empty
+    diagram, still exceeds the tolerance 1e-6 * 2T of that point) up to 1e-2.  Variant far: the diagrams live at
+    T and the shift brings them back to the origin; variant near: they live at the origin and the shift is T."""
+    T = rng.choice([1e3, 1.2e3, 1e4, 1e5, 1e6, rng.uniform(1e3, 1e6)]) * rng.choice([1, -1])
+    rel = rng.choice([rng.uniform(7e-6, 1e-5), rng.uniform(7e-6, 1e-5), rng.uniform(1e-5, 1e-4), rng.uniform(1e-4, 1e-2)])
+    far = rng.random() < 0.5
+    w, at = abs(T) * rel, (T if far else 0.0)
+
+    def dg(n):
+        out = []
+        for _ in range(n):
+            b = at + rng.uniform(-20, 20) * w
+            out.append([b, b + rng.uniform(0.9, 1.0) * w])
+        return out
+    F, G, H = dg(rng.randint(1, 3)), dg(rng.choice([0, 0, 1, 2])), dg(rng.randint(0, 2))
+    if rng.random() < 0.5:
+        F, G = G, F
+    return F, G, H, [at + rng.uniform(-20, 20) * w], (-T if far else T)
+
+
 def _case(rng, cls, Ms):
     kind = cls if cls in ("neg", "mixed", "dyadic") else rng.choice(["pos", "pos", "mixed", "neg"])
     sc = rng.choice([2.0 ** -10, 2.0 ** -3, 2.0 ** 7, 2.0 ** 20, 1e3]) if cls == "scale" else 1.0
+    if cls == "tiny":       # whole diagrams at a tiny scale: every persistence far below 1e-8 (absolute thresholds)
+        sc = rng.choice([1e-8, 1e-9, 1e-10, 1e-12, 1e-15, 1e-30])
     n, m = rng.randint(1, 5), rng.randint(1, 5)
+    if cls == "big":        # more points than any small buffer / block (not a multiple of a power of two)
+        n, m = rng.choice([17, 33, 49, 65]), rng.choice([9, 21, 34, 50])
     F, G = _dgm(rng, n, kind, sc), _dgm(rng, m, kind, sc)
     if cls == "reorder":
         G = F[:]
@@ -126,8 +167,12 @@ def _case(rng, cls, Ms):
     H = _dgm(rng, rng.randint(0, 4), kind, sc)
     xs = [rng.uniform(-3, 4) * sc for _ in range(rng.randint(1, 3))]
     shift = rng.choice([10.0, -10.0, -3.0, rng.uniform(-50, 50), -1000.0]) * sc
-    factor = rng.choice([2.0, 0.5, 3.0, rng.uniform(0.1, 10), 1024.0])
-    dtype = "float64"
+    factor = rng.choice([2.0, 0.5, 3.0, rng.uniform(0.1, 10), 1024.0, 1e-9, 1e-12, 1e6])
+    dtype, layout = "float64", "C"
+    if cls == "farshort":
+        F, G, H, xs, shift = _farshort(rng)
+    elif cls == "layout":
+        layout = rng.choice(LAYOUTS)
     if cls == "multi":
         # bit-identical shared points with DIFFERENT multiplicities in the two diagrams (SW({p,p},{p}) > 0)
         p = _pt(rng, kind)
@@ -153,11 +198,13 @@ def _case(rng, cls, Ms):
     perm = list(range(len(F)))
     rng.shuffle(perm)
     return {"cls": cls, "F": F, "G": G, "H": H, "M": rng.choice(Ms), "perm": perm, "shift": shift, "factor": factor,
-            "diag": [[x, x] for x in xs], "diag_pos": [rng.random() for _ in xs], "dtype": dtype}
+            "diag": [[x, x] for x in xs], "diag_pos": [rng.random() for _ in xs], "dtype": dtype, "layout": layout}
 
 
 CLASSES = ["generic", "generic", "neg", "mixed", "mixed", "reorder", "near", "diag", "scale", "empty",
-           "one_empty", "single", "dyadic", "dyadic", "repaired", "repaired", "multi", "multi", "intdtype", "intdtype"]
+           "one_empty", "single", "dyadic", "dyadic", "repaired", "repaired", "multi", "multi", "intdtype", "intdtype",
+           "tiny", "tiny", "farshort", "farshort", "farshort", "layout", "layout"]
+LAYOUTS = ["F", "view", "ro"]      # Fortran order / strided view into a larger array / read-only array
 
 
 def generate(rng, tier):
@@ -167,7 +214,46 @@ def generate(rng, tier):
     for i, M in enumerate(Ms):          # every M of the run on a case with a non-zero first slice
         c = _case(rng, ["generic", "mixed", "repaired"][i % 3], [M])
         cases.append(c)
-    return cases
+    small = [M for M in Ms if M <= 10]
+    cases += [_case(rng, "big", small) for _ in range(2 if tier == "quick" else 24)]
+    return cases + _histories(rng, 14 if tier == "quick" else 200, Ms)
+
+
+def _histories(rng, n, Ms):
+    """Call histories in one process; equal-valued diagrams of different calls (and of the calls inside one step)
+    are THE SAME ndarray objects.  pairwise: the loop d(A,B), d(B,C), d(A,C), d(C,empty), d(C,B) over diagrams that sit
+    at different places along the diagonal; msweep: one pair under several M and back; fault: calls that raise
+    half-way (a 3-column second argument: the first has been projected already; M = 0) between clean calls on
+    the same objects; layout: pairwise on strided views / Fortran-ordered arrays."""
+    hs = []
+    for i in range(n):
+        kind = ["pairwise", "msweep", "fault", "pairwise", "layout"][i % 5]
+        kd = rng.choice(["pos", "mixed", "neg"])
+        offs = rng.sample([0.0, 12.0, -6.0, 3.0, -40.0, 100.0], 3)
+        A, B, C = [[[b + t, d + t] for b, d in _dgm(rng, rng.randint(1, 5), kd)] for t in offs]
+        M = rng.choice(Ms)
+        layout = rng.choice(["F", "view"]) if kind == "layout" else "C"
+
+        def step(F, G, H, M=M):
+            c = _case(rng, "generic", [M])
+            perm = list(range(len(F)))
+            rng.shuffle(perm)
+            c.update(cls="step", F=F, G=G, H=H, perm=perm, layout=layout)
+            return c
+        if kind in ("pairwise", "layout"):
+            steps = [step(A, B, C), step(B, C, A), step(A, C, B), step(C, [], B), step(C, B, A)]
+            if rng.random() < 0.5:
+                steps = steps[:3]
+        elif kind == "msweep":
+            M2, M3 = rng.choice(Ms), rng.choice(Ms)
+            steps = [step(A, B, C), step(A, B, C, M2), step(B, A, [], M3), step(A, B, C)]
+        else:
+            bad = [[b, d, 0.0] for b, d in B] or [[0.0, 1.0, 0.0]]
+            f1 = dict(step(A, [], C), fault=True, G3=bad)
+            f2 = dict(step(A, B, C), fault=True, M=0)
+            steps = [step(A, B, C), f1, step(A, B, C), f2, step(B, A, C), step(A, C, B)]
+        hs.append(history.make(kind, steps))
+    return hs
 
 
 def corpus():
@@ -200,7 +286,23 @@ def _with_diag(X, diag, pos):
     return X
 
 
-def impl_run(cases):
+def _mk(np, X, dtype, layout):
+    dt = {"int32": np.int32, "int64": np.int64}.get(dtype, float)
+    a = np.array(X, dtype=float).reshape(-1, 2).astype(dt)
+    if layout == "F":
+        a = np.asfortranarray(a)
+    elif layout == "view":          # rows 1,3,5,.. and columns 1,4 of a larger array filled with 777
+        big = np.full((2 * len(a) + 1, 5), 777, dtype=dt)
+        big[1::2, 1::3] = a
+        a = big[1::2, 1::3]
+    elif layout == "ro":
+        a.setflags(write=False)
+    return a
+
+
+def impl_call(c, memo=None):
+    """The calls of one case.  memo is None: every call gets freshly built arrays; memo is a dict (histories):
+    equal-valued diagrams are the same ndarray objects, within the step and across the steps of the history."""
     import numpy as np
     from persim import sliced_wasserstein
     try:
@@ -211,36 +313,45 @@ def impl_run(cases):
     def f(x):
         x = float(x)
         return x if x == x and abs(x) != float("inf") else repr(x)
-    outs = []
-    for c in cases:
-        def call():
-            F, G, H, M = c["F"], c["G"], c["H"], c["M"]
-            dt = {"int32": np.int32, "int64": np.int64}.get(c.get("dtype", "float64"), float)
+    dtype, layout = c.get("dtype", "float64"), c.get("layout", "C")
 
-            def arr(X):
-                return np.array(X, dtype=float).reshape(-1, 2).astype(dt)
-            t, k = c["shift"], c["factor"]
-            sh = lambda X: [[b + t, d + t] for b, d in X]
-            scl = lambda X: [[b * k, d * k] for b, d in X]
-            o = {"v": f(sliced_wasserstein(arr(F), arr(G), M=M)),
-                 "sym": f(sliced_wasserstein(arr(G), arr(F), M=M)),
-                 "perm": f(sliced_wasserstein(arr(F), arr([F[i] for i in c["perm"]]), M=M)),
-                 "dg": f(sliced_wasserstein(arr(_with_diag(F, c["diag"], c["diag_pos"])),
-                                            arr(_with_diag(G, c["diag"][::-1], c["diag_pos"])), M=M)),
-                 "sh": f(sliced_wasserstein(arr(sh(F)), arr(sh(G)), M=M)),
-                 "sc": f(sliced_wasserstein(arr(scl(F)), arr(scl(G)), M=M)),
-                 "FH": f(sliced_wasserstein(arr(F), arr(H), M=M)),
-                 "HG": f(sliced_wasserstein(arr(H), arr(G), M=M))}
-            if dt is not float:
-                o["vf"] = f(sliced_wasserstein(np.array(F, dtype=float).reshape(-1, 2),
-                                               np.array(G, dtype=float).reshape(-1, 2), M=M))
-            try:
-                o["w1"] = f(wasserstein(np.array(F, dtype=float).reshape(-1, 2), np.array(G, dtype=float).reshape(-1, 2))) if wasserstein else None
-            except Exception:
-                o["w1"] = None
-            return o
-        outs.append(core.guarded(call))
-    return outs
+    def arr(X):
+        if memo is None:
+            return _mk(np, X, dtype, layout)
+        return history.intern(memo, ["arr", X, dtype, layout], lambda: _mk(np, X, dtype, layout))
+
+    def call():
+        F, G, H, M = c["F"], c["G"], c["H"], c["M"]
+        if c.get("fault"):      # a call that is expected to raise; its only role is what it leaves behind
+            G_ = np.array(c["G3"], dtype=float).reshape(-1, 3) if "G3" in c else arr(G)
+            return {"fault": f(sliced_wasserstein(arr(F), G_, M=M))}
+        t, k = c["shift"], c["factor"]
+        sh = lambda X: [[b + t, d + t] for b, d in X]
+        scl = lambda X: [[b * k, d * k] for b, d in X]
+        o = {"v": f(sliced_wasserstein(arr(F), arr(G), M=M)),
+             "sym": f(sliced_wasserstein(arr(G), arr(F), M=M)),
+             "perm": f(sliced_wasserstein(arr(F), arr([F[i] for i in c["perm"]]), M=M)),
+             "dg": f(sliced_wasserstein(arr(_with_diag(F, c["diag"], c["diag_pos"])),
+                                        arr(_with_diag(G, c["diag"][::-1], c["diag_pos"])), M=M)),
+             "sh": f(sliced_wasserstein(arr(sh(F)), arr(sh(G)), M=M)),
+             "sc": f(sliced_wasserstein(arr(scl(F)), arr(scl(G)), M=M)),
+             "FH": f(sliced_wasserstein(arr(F), arr(H), M=M)),
+             "HG": f(sliced_wasserstein(arr(H), arr(G), M=M))}
+        # the first call once more, after all the others (in a history: on the same objects)
+        o["v2"] = f(sliced_wasserstein(arr(F), arr(G), M=M))
+        if dtype != "float64":
+            o["vf"] = f(sliced_wasserstein(np.array(F, dtype=float).reshape(-1, 2),
+                                           np.array(G, dtype=float).reshape(-1, 2), M=M))
+        try:
+            o["w1"] = f(wasserstein(np.array(F, dtype=float).reshape(-1, 2), np.array(G, dtype=float).reshape(-1, 2))) if wasserstein else None
+        except Exception:
+            o["w1"] = None
+        return o
+    return core.guarded(call)
+
+
+def impl_run(cases):
+    return [history.run(c, impl_call) if history.is_hist(c) else impl_call(c) for c in cases]
 
 
 # ---------------------------------------------------------------------------------- the spec, in Python
@@ -299,10 +410,12 @@ def _num(x):
 
 
 def predicate(c, o):
+    if history.is_hist(c):
+        return history.predicate(c, o, predicate)
     if "error" in o:
         return False, "exception: %s" % o
     F, G, H, M = c["F"], c["G"], c["H"], c["M"]
-    for k in ("v", "sym", "perm", "dg", "sh", "sc", "FH", "HG"):
+    for k in ("v", "sym", "perm", "dg", "sh", "sc", "FH", "HG") + (("v2",) if "v2" in o else ()):
         if not _num(o[k]):
             return False, "nan: value %s = %s is not a finite number" % (k, o[k])
         if o[k] < 0:
@@ -311,6 +424,12 @@ def predicate(c, o):
     ref = _spec(F, G, M)
     if abs(o["v"] - ref) > tol:
         return False, "value: %r differs from the averaged 1-D transport cost %r (tolerance %.3g)" % (o["v"], ref, tol)
+    # the property holds for every pair of diagrams and every call: also for (F,H), (H,G), and for (F,G) asked again
+    for k, X, Y in (("FH", F, H), ("HG", H, G), ("v2", F, G)):
+        if k in o:
+            r = ref if k == "v2" else _spec(X, Y, M)
+            if abs(o[k] - r) > _tol(X, Y):
+                return False, "value: %s = %r differs from the averaged 1-D transport cost %r (tolerance %.3g)" % (k, o[k], r, _tol(X, Y))
     if "vf" in o and (not _num(o["vf"]) or abs(o["vf"] - o["v"]) > 2 * tol):
         return False, "dtype: %s arrays give %r, the same points as float64 give %r" % (c.get("dtype"), o["v"], o["vf"])
     if abs(o["sym"] - o["v"]) > 2 * tol:
@@ -337,6 +456,8 @@ def predicate(c, o):
 
 
 def nontrivial(c, o):
+    if history.is_hist(c):
+        return history.nontrivial(c, o, nontrivial)
     if not c["F"] or not c["G"] or "error" in o:
         return False
     return sorted(map(tuple, c["F"])) != sorted(map(tuple, c["G"])) and _num(o.get("v")) and o["v"] > 0
@@ -426,9 +547,12 @@ def coq_jobs(cases, outs):
 def coq_judge(cases, outs, results):
     verdicts = ["disagree:not-expressible (nan/inf or exception where the model returns a number)"] * len(cases)
     terms, idx = [], []
-    Ms = sorted({c["M"] for c in cases})
+    Ms = sorted({c["M"] for c in cases if not history.is_hist(c)})
     _prove_dirs(Ms)      # replayed cases may carry an M that is not among this run's
     for i, (c, o) in enumerate(zip(cases, outs)):
+        if history.is_hist(c):
+            verdicts[i] = "skip:history (every step is judged by the spec predicate)"
+            continue
         if "error" in o or not _num(o.get("v")):
             continue
         if not _state["dirs_ok"].get(c["M"]):
@@ -451,6 +575,9 @@ def coq_judge(cases, outs, results):
 
 
 def shrink_candidates(c):
+    if history.is_hist(c):
+        yield from history.shrink(c)
+        return
     for key in ("F", "G", "H"):
         X = c[key]
         for j in range(len(X)):
